@@ -7,6 +7,11 @@ BASELINE_OFF = ("cd /repo && cargo nextest run --workspace --no-fail-fast --tool
                 "--test-threads 8 --offline || (cd /repo && cargo test --workspace --no-fail-fast --offline)")
 
 CHECKS = {
+ "C04": dict(
+   technique="bounded-exhaustive + proptest names at 73 identifier positions; oracle = independent dialect lexers (differential token-stream comparison against a benign reference name) + SQLite catalogue read-back",
+   text="Exploration: every non-empty name over {a \" ` ' \\ . space $ é} up to length 2 (quick) / 3 (thorough) at each of 73 identifier positions of query and schema statements on each backend that supports the position, plus random Unicode names. The rendered statement must lex, under the engine's rules, to the reference token stream with exactly the expected identifier token(s) decoding to the supplied name; on SQLite table / column / index / alias names are read back from the engine.",
+   note="MySQL backtick and Postgres double-quote identifier rules are transcribed from the manuals; unquoted-by-design positions (Func::cust, Keyword::Custom, ColumnType::Custom) are out of scope; the derive fast path is covered by C19.",
+   ref="DESIGN.md 4/C04"),
  "C03": dict(
    technique="bounded-exhaustive + proptest payloads at every inlining position; oracle = independent dialect lexers/decoders (differential token-stream comparison against a benign reference payload) + SQLite engine read-back",
    text="Exploration: every string over a 12/13-symbol quoting-relevant alphabet up to length 3 (quick) / 4 (thorough) at every text position of each backend, every char up to U+2FFF (quick) / all chars (thorough), all byte strings of length <= 2, and random Unicode text / chars / byte strings. The rendered statement must lex, under the engine's lexical rules, to the same token stream as a benign reference rendering with exactly one literal token whose decoded content equals the payload; SQLite literals are also read back through the real engine.",
